@@ -231,13 +231,13 @@ package trace
 //@ func convert.HashStr
 //@   assumed xxhash of the string (only reached when the index has not been built yet)
 //@   pure
+// buildIndex: only "an index that has been built is left alone" is stated (thin contract); building it is not under contract.
 //@ func droppedTraceIDs.buildIndex
 //@   mode bv
-//@   requires dropped != nil && len(dropped.slots) > 0
+//@   opt only-stated
+//@   requires dropped != nil
 //@   modifies dropped.slots
-//@   ensures  already-built-is-left-alone: samehdr(dropped.slots, old(dropped.slots)) && (forall s :: 0 <= s && s < len(dropped.slots) ==> dropped.slots[s] == old(dropped.slots[s]))
-//@   loop 0 invariant true
-//@   loop 1 invariant true
+//@   ensures  already-built-is-left-alone: old(len(dropped.slots)) > 0 ==> samehdr(dropped.slots, old(dropped.slots)) && (forall s :: 0 <= s && s < len(dropped.slots) ==> dropped.slots[s] == old(dropped.slots[s]))
 //
 // two facts about probe distances in a table of 2^m slots (proved on 64-bit vectors)
 //@ lemma probeDistInjective(s uint64, p uint64, h uint64, n uint64)
